@@ -124,7 +124,7 @@ async fn history(root: std::path::PathBuf, seed: u64, h: u64, t_ms: u64) -> Out 
         match op {
             Op::Send(f) => { send(*f, &mut sent); last_activity = Some(Instant::now()); tokio::time::sleep(Duration::from_millis(r.below(8) + 2)).await; }
             Op::Burst(f, n) => { for _ in 0..*n { send(*f, &mut sent); } last_activity = Some(Instant::now()); tokio::time::sleep(Duration::from_millis(5)).await; }
-            Op::Dns(f) => { tokio::time::sleep(Duration::from_millis(40)).await; send(*f, &mut sent); last_activity = Some(Instant::now()); tokio::time::sleep(Duration::from_millis(100)).await; }
+            Op::Dns(f) => { *out.tallies.entry("s5: queries on port-53 flows (flow ends with the answer; siblings and later queries must work)".into()).or_insert(0) += 1; tokio::time::sleep(Duration::from_millis(40)).await; send(*f, &mut sent); last_activity = Some(Instant::now()); tokio::time::sleep(Duration::from_millis(100)).await; }
             Op::Wait(ms) => {
                 let before = Instant::now();
                 tokio::time::sleep(Duration::from_millis(*ms)).await;
